@@ -483,6 +483,7 @@ def explore(contract, case, contracts, max_paths=None, loop_mode=None):
             for ordn, spec in getattr(c, "loops", {}).items():
                 interp.loop_specs[(c.target, ordn)] = spec
         interp.loop_mode = loop_mode
+        E.__dict__["loop_mode"] = loop_mode
         try:
             args, kwargs = contract.build(E, case)
             reach = _reach(list(args) + list(kwargs.values()))
